@@ -50,12 +50,22 @@ type session struct {
 	// skipped: the scripts were not written because the ephemeral keys came out
 	// in the other order than the caller asked for
 	skipped bool
+	pooled  bool
+}
+
+// release gives the big buffers of a finished session back (never called for a
+// session whose goroutines may still be running).
+func (s *session) release() {
+	if s.pooled && !s.hung {
+		s.pooled = false
+		s.d.recycle()
+	}
 }
 
 // handshakeDeadline is far above anything the code needs (a handshake plus a
 // 520-frame script takes milliseconds); it only exists so that a party that
 // never returns becomes a verdict instead of a hang.
-const handshakeDeadline = 120 * time.Second
+const handshakeDeadline = 60 * time.Second
 
 // handshake runs the real MakeSecretConnection on both ends (two goroutines).
 // After its own handshake succeeded, party i writes script[i] through its
@@ -72,7 +82,19 @@ func handshake(keys [2]crypto.PrivKey, m *mitm, script [2][][]byte) *session {
 // the session is marked skipped (the caller tries again); -1 = any order.
 func handshakeOpt(keys [2]crypto.PrivKey, mitms [2]*mitm, script [2][][]byte, wantALo int) *session {
 	s := &session{}
-	s.d, s.ep[0], s.ep[1] = newDuplex()
+	var hint [2]int
+	for i := range script {
+		if n := len(script[i]); n > 8 {
+			// room for the sealed frames of a long script and a few extra units
+			total := 0
+			for _, m := range script[i] {
+				total += len(m)
+			}
+			hint[i] = (total/p2p.VerifDataMaxSize + n + 8) * p2p.VerifSealedFrameSize
+		}
+	}
+	s.d, s.ep[0], s.ep[1] = newDuplex(hint)
+	s.pooled = hint[0] > 0 || hint[1] > 0
 	s.d.dir[0].mitm = mitms[0]
 	s.d.dir[1].mitm = mitms[1]
 	var skip int32
@@ -152,6 +174,7 @@ func orderedSession(keys [2]crypto.PrivKey, build func() [2]*mitm, script [2][][
 		if s.hung || (s.aLo == aLo && !s.skipped) {
 			return s
 		}
+		s.release()
 		if s.aLo == aLo && s.skipped {
 			core.Fatal("harness: session skipped although the key order is the wanted one")
 		}
@@ -433,9 +456,44 @@ func (c *ctx) runMitm(k kase) {
 	}
 }
 
+// farScript: what the parties write in a far-* case.  The tampered direction
+// carries the long script up to one frame past the last unit the man in the
+// middle touches (what follows the first altered unit cannot change the
+// verdict; the largest distances use all longFrames frames); the other
+// direction carries three frames (the long scripts of BOTH directions at once
+// are the subject of the long honest streams).
+func (c *ctx) farScript(k kase) (scr [2]*scriptData, sizes [2][]int) {
+	snd := k.Dir
+	need := k.Frame + k.Arg + 2 - 3 // data frames so that unit Frame+Arg+1 exists
+	if need < 1 {
+		need = 1
+	}
+	full := scriptOf(longScriptIdx, snd)
+	var sz []int
+	frames, bytesN, writes := 0, 0, 0
+	for _, w := range mitmScripts[longScriptIdx][snd] {
+		if frames >= need {
+			break
+		}
+		sz = append(sz, w)
+		frames += len(c.chunkSizes([]int{w}))
+		bytesN += w
+		writes++
+	}
+	scr[snd] = &scriptData{msgs: full.msgs[:writes], plain: full.plain[:bytesN]}
+	sizes[snd] = sz
+	scr[1-snd] = scriptOf(0, 1-snd)
+	sizes[1-snd] = mitmScripts[0][1-snd]
+	return
+}
+
 func (c *ctx) runMitmOnce(k kase, count bool) (hung bool) {
 	snd, rcv := k.Dir, 1-k.Dir
 	scr := [2]*scriptData{scriptOf(k.Script, 0), scriptOf(k.Script, 1)}
+	sizes := mitmScripts[k.Script]
+	if farKinds[k.Tamper] {
+		scr, sizes = c.farScript(k)
+	}
 	plain := scr[snd].plain
 	keys := [2]crypto.PrivKey{keyA, keyB}
 	s := orderedSession(keys, func() [2]*mitm {
@@ -443,6 +501,7 @@ func (c *ctx) runMitmOnce(k kase, count bool) (hung bool) {
 		ms[snd] = c.buildMitm(k)
 		return ms
 	}, [2][][]byte{scr[0].msgs, scr[1].msgs}, k.ALo)
+	defer s.release()
 	part := "secretconn-mitm"
 	base := func(kind string) map[string]string {
 		m := map[string]string{"part": part, "kind": kind, "tamper": k.Tamper, "frame": frameClass(k.Frame)}
@@ -466,7 +525,7 @@ func (c *ctx) runMitmOnce(k kase, count bool) (hung bool) {
 	if !tampered {
 		firstBad = 1 << 30
 	}
-	chunks := c.chunkSizes(mitmScripts[k.Script][snd])
+	chunks := c.chunkSizes(sizes[snd])
 	if !s.hung && s.err[snd] == nil && nUnits != 3+len(chunks) {
 		core.Fatal("framing assumption broken: %d units for %d chunks", nUnits, len(chunks))
 	}
